@@ -198,7 +198,7 @@ func (r *router) routeRequest(ctx context.Context, ch chan rrErr, urlMatch *urlM
 	retryRule := requestsResult.retryRule
 
 	var bodyData []byte
-	if twoTargets || canRetry {
+	if twoTargets || canRetry || retryRule != nil {
 		logctx.WithFields(apexlog.Fields{"twoTargets": twoTargets, "canRetry": canRetry}).Debug("Both copy and proxy targets found or request was retryable, reading request body to memory")
 		var err error
 		bodyData, err = ioutil.ReadAll(req.Body)
@@ -207,6 +207,8 @@ func (r *router) routeRequest(ctx context.Context, ch chan rrErr, urlMatch *urlM
 			ch <- rrErr{nil, usererror.CreateError(http.StatusBadRequest, "Couldn't read request body")}
 			return
 		}
+		// A retry_rule fallback re-enters with the same request: keep its body readable.
+		req.Body = newByteSliceBody(bodyData)
 		if requestsResult.copyRequest != nil {
 			requestsResult.copyRequest.Body = newByteSliceBody(bodyData)
 		}
